@@ -376,7 +376,7 @@ def run(tier):
     full_doc = parse(full_query)
     fragments_text = full_query[full_query.index("fragment FullType"):]
     lookup_query = "query L($n: String!) { __type(name: $n) { ...FullType } }\n" + fragments_text
-    n_schemas = 20 if quick else 36
+    n_schemas = 16 if quick else 36
     validated = set()
     n_model_cases = [0]
     literals = {}   # printed text -> (wire of the literal tree, a key for the report)
@@ -443,6 +443,7 @@ def run(tier):
         dep = "@deprecated" if rs is None else f"@deprecated(reason: {rs})"
         probes.append((f"deprecation-probe:{nm}-reason", build_schema(
             f"directive @d(x: Int {dep}, y: Int) {dep} on FIELD\n"
+            f"directive @e(x: Int {dep}, y: I = {{c: 1}} {dep}, z: Int) on FIELD\n"   # a directive that stays visible
             f"enum E {{ A {dep} B }}\ninput I {{ a: Int {dep} b: E = A {dep} c: Int }}\n"
             f"type Query {{ f(a: I {dep}, b: Int): E {dep} g: Int }}",
             experimental_directives_on_directive_definitions=True)))
@@ -461,7 +462,10 @@ def run(tier):
     # Python representations of default values (defaults travel as printed text through introspection)
     quick_keys = ("nested", "Int:100.0", "Int:2000.0", "Int:-0.0", "[Int]:(1, 2.0)", "[Int]:5.0", "Float:3:", "ID:12.0",
                   "shared-default-probe:enum-string", "shared-default-probe:float-int:ab",
-                  "shared-default-probe:input-objects:history-a-then-b")
+                  "shared-default-probe:input-objects:history-a-then-b",
+                  "member-probe:null-member-with-default:value", "member-probe:null-members-in-list:value",
+                  "member-probe:nested-null-member:value", "member-probe:omits-defaulted-nonnull:value",
+                  "member-probe:list-omits:value", "member-probe:omits-everything:legacy")
     for key, sch in G.representation_probes():
         if not quick or any(k in key for k in quick_keys):
             probes.append((key, sch))
@@ -498,7 +502,13 @@ def run(tier):
             ck.violation(key0, f"introspection_from_schema (all options) raised {type(e).__name__}: {e}", rep0)
             continue
         # -- option combinations
-        if mode == "probe":   # minimal schemas: the client round trip is what they are for; keep them cheap
+        if mode == "probe" and key0.startswith("deprecation-probe"):
+            # every deprecation filter: deprecated input values on/off x deprecated directives on/off (others on),
+            # plus all options off
+            on = {k: True for k in OPTS}
+            combos = [dict(on, input_value_deprecation=a, experimental_directive_deprecation=b)
+                      for a in (True, False) for b in (True, False)] + [all_combos[-1]]
+        elif mode == "probe":   # minimal schemas: the client round trip is what they are for; keep them cheap
             combos = [all_combos[0], all_combos[-1]]
         elif quick:
             combos = [all_combos[0], all_combos[-1]]
@@ -548,7 +558,7 @@ def run(tier):
             if e:
                 ck.violation(key, f"result does not conform to the introspection types: {e}", rep)
             # extracted model: introspect and prune (on a subset in quick to bound the model time)
-            if (ci == 0 if mode == "probe" else (ci < 6 or ci % 3 == 0)) if quick else (ci + i) % 4 == 0:
+            if ((ci == 0 or key0.startswith("deprecation-probe")) if mode == "probe" else (ci < 6 or ci % 3 == 0)) if quick else (ci + i) % 4 == 0:
                 cases.append([8] + bits + enc)
                 meta.append((key, rep, "Introspect.introspect(enc s, o)", r))
                 cases.append([9] + bits + wfull)
@@ -570,7 +580,7 @@ def run(tier):
         meta.append((f"{key0}:lookup:{tn}", rep0, "Introspect.type_lookup", by_name[tn]))
         # -- ad-hoc selections
         ad = Adhoc(rng, full)
-        for _ in range(1 if mode == "probe" else 6 if quick else 12):
+        for _ in range((6 if key0.startswith("deprecation-probe") else 1) if mode == "probe" else 6 if quick else 12):
             q, want = ad.query()
             key = f"{key0}:adhoc:{q}"
             rep = dict(rep0, query=q)
